@@ -115,6 +115,13 @@ func init() {
 		return n - 1
 	})
 	reg(harnessPkg+".vpSymbolic", "", func(fr *frame, args []value) value { return true })
+	reg(harnessPkg+".vpReverseMapOrder", "maps are iterated in the opposite order while on", func(fr *frame, args []value) value {
+		fr.i.reverseMaps = args[0].(bool)
+		return nil
+	})
+	reg(harnessPkg+".vpSteps", "SSA instructions executed on this path so far", func(fr *frame, args []value) value {
+		return int64(fr.i.ps.steps)
+	})
 	reg(harnessPkg+".vpAssume", "", func(fr *frame, args []value) value {
 		fr.i.ps.assume(args[0])
 		return nil
